@@ -86,8 +86,12 @@ auto_decode(void *coder_ptr, const lzma_allocator *allocator,
 				coder->next.coder, allocator,
 				in, in_pos, in_size,
 				out, out_pos, out_size, action);
+		// The check in SEQ_FINISH is only for LZMA_Alone (get_check is
+		// NULL). The .xz and .lz decoders handle LZMA_CONCATENATED
+		// themselves and .lz allows trailing data after the last member.
 		if (ret != LZMA_STREAM_END
-				|| (coder->flags & LZMA_CONCATENATED) == 0)
+				|| (coder->flags & LZMA_CONCATENATED) == 0
+				|| coder->next.get_check != NULL)
 			return ret;
 
 		coder->sequence = SEQ_FINISH;
